@@ -45,10 +45,10 @@ def build(ctx, p):
         W.pre_comp.update(common.initial_compositions(lab))
     m = p.get("wl_max", "sym")
     if m == "sym":
-        m = ctx.real("wl_max")
+        m = ctx.real("wl_max", None, common.BIG)
         ctx.assume(m > 0)
     W.wl_max = m
-    W.wl = common.make_worklist(ctx, W.dev, m, auto_split=p.get("auto_split", True))
+    W.wl = common.make_worklist(ctx, W.dev, m, auto_split=p.get("auto_split", True), diti_mode=p.get("diti", False))
     W.named = []   # (rack, well id, sign, requested volume)
     W.pairs = []   # (source id, destination id, volume) for transfers
     W.nhist = {n: len(lab._history) for n, lab in W.labs.items()}
@@ -72,10 +72,10 @@ def run(ctx, W):
         wells = [ctx.choose(f"well{i}", cnd) for i in range(k)]
         shape = ctx.choose("volshape", p.get("volshapes", ["list", "scalar"]))
         if shape == "scalar":
-            v = ctx.real("x0", 0)
+            v = ctx.real("x0", 0, common.BIG)
             vols, per = v, [v] * k
         else:
-            per = [ctx.real(f"x{i}", 0) for i in range(k)]
+            per = [ctx.real(f"x{i}", 0, common.BIG) for i in range(k)]
             vols = list(per)
         sign = -1 if op == "aspirate" else 1
         W.named = [(lab.name, w, sign, v) for w, v in zip(wells, per)]
@@ -85,15 +85,29 @@ def run(ctx, W):
         sc, dc = cand(p, sids, "src"), cand(p, dids, "dst")
         sw = [ctx.choose(f"src{i}", sc) for i in range(k)]
         dw = [ctx.choose(f"dst{i}", dc) for i in range(k)]
-        vlo = None if p.get("neg") else 0
-        per = [ctx.real(f"x{i}", vlo) for i in range(k)]
+        vlo = -common.BIG if p.get("neg") else 0
+        per = [ctx.real(f"x{i}", vlo, common.BIG) for i in range(k)]
         for s_, d_, v in zip(sw, dw, per):
             W.named += [("S", s_, -1, v), (W.dst.name, d_, 1, v)]
             W.pairs.append((s_, d_, v))
         wash = ctx.choose("wash", p.get("washes", [1, "reuse"]))
         W.wash = wash
         W.cfg = (op, tuple(sw), tuple(dw), p.get("partition_by", "auto"), wash)
-        wl.transfer(W.src, sw, W.dst, dw, per, partition_by=p.get("partition_by", "auto"), wash_scheme=wash, **kw)
+        W.kwargs = {}
+        if p.get("kwargs"):
+            from robotools.evotools.types import Tip
+            W.kwargs["liquid_class"] = ctx.absstr("lc")
+            W.kwargs["rack_id"] = ctx.absstr("rack_id")
+            tip = ctx.choose("tip", ["default", 3, (1, 2), "T8", "Any"])
+            if tip != "default":
+                W.kwargs["tip"] = {"T8": Tip.T8, "Any": Tip.Any}.get(tip, tip) if isinstance(tip, str) else tip
+            W.tipspec = tip
+        args_v = per
+        if p.get("bad") == "vols+1":
+            args_v = per + [ctx.real("x_extra", 0)]
+        elif p.get("bad") == "dst+1":
+            dw = dw + [dc[0]]
+        wl.transfer(W.src, sw, W.dst, dw, args_v, partition_by=p.get("partition_by", "auto"), wash_scheme=wash, **W.kwargs, **kw)
     elif op == "distribute":
         col = ctx.choose("col", list(range(W.src.n_columns)))
         sels = p.get("dsels") or [[0], [0, -1], [1, 2, 0]]
@@ -106,7 +120,7 @@ def run(ctx, W):
             if pos not in seen:
                 seen.add(pos)
                 uniq.append(w)
-        v = ctx.real("x0", 0)
+        v = ctx.real("x0", 0, common.BIG)
         md = ctx.choose("multi_disp", p.get("multi_disp", [1, 3]))
         sid = sids[col * len(W.src.row_ids)]
         W.named = [("S", sid, -1, v) for _ in uniq] + [(W.dst.name, w, 1, v) for w in uniq]
@@ -123,10 +137,10 @@ def run(ctx, W):
         wells = [ctx.choose(f"well{i}", cnd) for i in range(k)]
         shape = ctx.choose("volshape", ["list", "scalar"])
         if shape == "scalar":
-            v = ctx.real("x0", 0)
+            v = ctx.real("x0", 0, common.BIG)
             vols, per = v, [v] * k
         else:
-            per = [ctx.real(f"x{i}", 0) for i in range(k)]
+            per = [ctx.real(f"x{i}", 0, common.BIG) for i in range(k)]
             vols = list(per)
         sign = -1 if op == "evo_aspirate" else 1
         W.named = [(lab.name, w, sign, v) for w, v in zip(wells, per)]
